@@ -36,7 +36,7 @@ def _closure(g, todo):
 
 
 def validate_script(g, script, op_lines):
-    """op_lines: the trace lines (ev.k == "Op") of this script, in order.  Returns (steps_compared, drift or None, lost)."""
+    """op_lines: the trace lines of the client steps (ev.k "Op" or "Restart") of this script, in order.  Returns (steps_compared, drift or None, lost)."""
     steps = [s for s in script["steps"] if s["op"] != "drain"]
     if len(op_lines) < len(steps):
         return 0, None, "trace has %d op lines for %d steps" % (len(op_lines), len(steps))
@@ -83,10 +83,10 @@ def validate(work, scripts, trace_files):
             continue
         with f:
             for line in f:
-                if '"k":"Op"' not in line:
+                if '"k":"Op"' not in line and '"k":"Restart"' not in line:
                     continue
                 r = json.loads(line)
-                if r["sid"] in by_id and r["ev"]["k"] == "Op":
+                if r["sid"] in by_id and r["ev"]["k"] in ("Op", "Restart"):
                     ops[r["sid"]].append(r)
     res = {"scripts": 0, "steps_compared": 0, "drift": [], "lost_track": 0, "not_run": 0}
     for sid, sc in by_id.items():
